@@ -17,7 +17,31 @@
      32 = F-SETEQ-UNHASHABLE $setEquals over arrays holding arrays or sub-documents raises
      64 = F-FIRST-EMPTY    $first/$last of an empty array answer null instead of missing
      128 = F-SLICE-NEG     $slice [array, position, n] with a negative position beyond the start
-                           of the array: the window is not clamped to the start *)
+                           of the array: the window is not clamped to the start
+   Bits added while proving Properties/C04.v (checked counterexamples in Refuted/C04.v):
+     256 = F-ADD-SCALAR    {$add: x} / {$multiply: x} with an operand that is not written as an
+                           array: the library raises (assert isinstance(values, (tuple, list)))
+                           where MongoDB answers x
+     512 = F-CONCATARRAYS-NULL  $concatArrays with a null/missing operand next to an operand that
+                           is neither null nor an array: the library checks all operand types
+                           first and raises, the manual (and this specification) answer null
+     1024 = F-SLICE-LITERAL  $slice whose position / count operand is not an integer literal but
+                           an expression evaluating to an integer (or an expression outside the
+                           model): the library tests isinstance(v, int) on the unevaluated
+                           operand and raises
+     2048 = F-PATH-NESTED-ARRAY  a field path that, inside an element of an array it traverses,
+                           meets another array with path components left: the library only
+                           traverses the outermost array (elements whose rest of the path crosses
+                           an inner array are dropped), MongoDB traverses the inner one as well
+     4096 = F-SWITCH-UNKNOWN-ARG  $switch with an argument other than branches/default, or a branch
+                           that has case and then but is not exactly {case, then}: MongoDB rejects
+                           the expression, the library ignores the extra field
+     8192 = S-SWITCH-EAGER  (an artefact of the specification, not a deviation of the library from
+                           MongoDB) a malformed $switch branch (not a document with case and then)
+                           after a branch whose case is true (or outside the model): the library
+                           - like MongoDB -
+                           validates every branch first and raises, the specification answers the
+                           branch taken *)
 From Coq Require Import ZArith List String Bool Ascii.
 From Verif Require Import Value PyEq BsonOrder Path Update Expr ExprSpec.
 Import ListNotations.
@@ -58,16 +82,90 @@ Definition node_reasons (k : string) (arg : value) (vals : list eres) : Z :=
                                    | _ => false end) vals then 32 else 0)
   (Z.lor (if in_list k ["$first"; "$last"] && existsb (fun r => match r with EV (VArr []) => true | _ => false end) vals
           then 64 else 0)
-         (if k =? "$slice" then
+  (Z.lor (if k =? "$slice" then
             match arg, vals with
             | VArr [_; VInt p; _], EV (VArr xs) :: _ =>
                 if (p <?? 0) && (Z.of_nat (List.length xs) <?? - p) then 128 else 0
             | _, _ => 0
             end
-          else 0)))))).
+          else 0)
+  (Z.lor (if ((k =? "$add") || (k =? "$multiply")) && negb is_list_arg then 256 else 0)
+  (Z.lor (if (k =? "$concatArrays") && any_null
+              && existsb (fun r => match r with EV VNull | EV (VArr _) => false | EV _ => true | _ => false end) vals
+          then 512 else 0)
+         (if k =? "$slice" then
+            match arg, vals with
+            | VArr (_ :: rest), _ :: rvals =>
+                if existsb (fun pr : value * eres =>
+                              match fst pr, snd pr with
+                              | VInt _, _ => false
+                              | _, EV (VInt _) => true
+                              | _, EE EUnmodelled => true
+                              | _, _ => false
+                              end) (combine rest rvals) then 1024 else 0
+            | _, _ => 0
+            end
+          else 0))))))))).
+
+(* F-PATH-NESTED-ARRAY: the walk of a field path *)
+Fixpoint meets_arr (parts : list string) (v : value) {struct parts} : bool :=
+  match parts with
+  | [] => false
+  | p :: rest =>
+      match v with
+      | VDoc fs => match assoc p fs with Some x => meets_arr rest x | None => false end
+      | VArr _ => true
+      | _ => false
+      end
+  end.
+
+Fixpoint nested_arr (parts : list string) (v : value) {struct parts} : bool :=
+  match parts with
+  | [] => false
+  | p :: rest =>
+      match v with
+      | VDoc fs => match assoc p fs with Some x => nested_arr rest x | None => false end
+      | VArr xs =>
+          match as_index p with
+          | Some i => match nth_z xs i with Some x => nested_arr rest x | None => false end
+          | None => existsb (fun x => match x with
+                                      | VDoc fs => match assoc p fs with
+                                                   | Some y => meets_arr rest y
+                                                   | None => false
+                                                   end
+                                      | _ => false
+                                      end) xs
+          end
+      | _ => false
+      end
+  end.
+
+(* F-SWITCH-UNKNOWN-ARG / S-SWITCH-EAGER on the named operands of $switch *)
+Definition branch_ok (b : value) : bool :=       (* what the library requires of a branch *)
+  match b with VDoc bf => has_key "case" bf && has_key "then" bf | _ => false end.
+
+Definition switch_unknown (sf : list (string * value)) : bool :=
+  negb (forallb (fun kv => (fst kv =? "branches") || (fst kv =? "default")) sf)
+  || match assoc "branches" sf with
+     | Some (VArr bs) =>
+         existsb (fun b => branch_ok b && match b with VDoc [_; _] => false | _ => true end) bs
+     | _ => false
+     end.
+
+Fixpoint switch_eager (truths : list (value * bool)) : bool :=   (* (branch, its case is true) *)
+  match truths with
+  | [] => false
+  | (b, t) :: l' => if branch_ok b then (if t then negb (forallb (fun bt => branch_ok (fst bt)) l') else switch_eager l')
+                    else false
+  end.
 
 Fixpoint reasons (vars : list (string * value)) (doc : value) (e : value) {struct e} : Z :=
   match e with
+  | VStr s =>
+      if starts_dollar2 s then
+        (if nested_arr (split_dots (drop1 (drop1 s))) (root_vars doc vars) then 2048 else 0)
+      else if starts_dollar s then (if nested_arr (split_dots (drop1 s)) doc then 2048 else 0)
+      else 0
   | VArr xs => zor_list (map (reasons vars doc) xs)
   | VDoc fs =>
       match fs with
@@ -135,13 +233,31 @@ Fixpoint reasons (vars : list (string * value)) (doc : value) (e : value) {struc
                 Z.lor (zor_list (map (reasons vars doc) xs))
                       (node_reasons k arg (map (eval vars doc true) xs))
             | VDoc afs =>
-                if existsb (fun kv => starts_dollar (fst kv)) afs
+                if existsb (fun kv => starts_dollar (fst kv)) afs && negb (k =? "$switch")
                 then (* one operand, itself an operator expression *)
                   Z.lor (reasons vars doc arg) (node_reasons k arg [eval vars doc true arg])
                 else
                 (* named operands ($cond, $switch): every value is walked under the same variables *)
-                zor_list (map (fun kv : string * value =>
-                                 match kv with (_, cv) => reasons vars doc cv end) afs)
+                Z.lor (zor_list (map (fun kv : string * value =>
+                                        match kv with (_, cv) => reasons vars doc cv end) afs))
+               (Z.lor (if (k =? "$switch") && switch_unknown afs then 4096 else 0)
+                      (if (k =? "$switch")
+                          && match assoc "branches" afs with
+                             | Some (VArr bs) =>
+                                 switch_eager
+                                   (map (fun b => (b, match b with
+                                                      | VDoc bf =>
+                                                          match assoc "case" bf with
+                                                          | Some c => match to_bool (eval vars doc true c) with
+                                                                      | Ok true | Err EUnmodelled => true
+                                                                      | _ => false end
+                                                          | None => false
+                                                          end
+                                                      | _ => false
+                                                      end)) bs)
+                             | _ => false
+                             end
+                       then 8192 else 0))
             | _ => Z.lor (reasons vars doc arg) (node_reasons k arg [eval vars doc true arg])
             end
       | _ => zor_list (map (fun kv : string * value => match kv with (_, cv) => reasons vars doc cv end) fs)
